@@ -6,22 +6,30 @@
   `merge_field_sets` (hence `==`) is never consulted: no `EqSoundOn` hypothesis, any comparison environment.
   Model pointers are atoms of `optimize_type`; in `_optimize_union` they land in `other`.
 
+  Since `_optimize_union` splices the unions hidden under `Optional` members (and directly nested unions), the
+  test "this type is optimised to a `DOptional`" is `Ty.optLikeS` (Proofs/MergeRho.lean), not `Ty.optLike`:
+  `Union[Optional[Union[]]]` is `Ty.optLike` and is optimised to `Null`.  The lax reading of required fields in
+  the statements below is therefore `InhFieldsLXS` (a field may be absent when its type is `Ty.optLikeS`).
+
   Results:
-  * `optimize_spec_allP`  — per-type core (result registry-stage, no overflowed literal, optional-like ↦
+  * `optimize_spec_allP`  — per-type core (result registry-stage, no overflowed literal, `Ty.optLikeS` ↦
                             `DOptional`, every inhabitant kept)
-  * `optSoundP_false`     — `OptSoundP` (Proofs/RegistryDefs.lean) is FALSE for every choice of parameters:
-                            `GoodP` allows a `DUnion` directly inside a `DUnion`, and then an optimised field
-                            can be a `DUnion` with a `DOptional` member (`optimize_nested_union_witness`)
-  * `optSoundP_partial`   — `OptSoundP` with the added hypothesis `FlatTopF F` (no field type is a `DUnion` with a
-                            `DUnion` member) and the added conclusion `FlatTopF F'`
-  * `optSoundP_weak`      — `OptSoundP` minus the clause "optional-like result fields are `DOptional`s", no extra
-                            hypothesis
+  * `optSoundP_false`     — `OptSoundP` (Proofs/RegistryDefs.lean, lax reading with `Ty.optLike`) is FALSE for
+                            every choice of parameters: `{}` lies laxly in `{a: Union[Optional[Union[]]]}`, which is
+                            optimised to `{a: Null}` (`optimize_degenerate_witness`)
+  * `optSoundPS`          — `OptSoundPS`: `OptSoundP` with the refined lax reading, TRUE with no extra hypothesis
+                            (the clause "optional-like result fields are `DOptional`s" holds for every input now
+                            that nested unions are spliced: `optimize_optShape`)
+  * `optSoundP_partial`   — `OptSoundPFlat` (hypothesis `FlatTopF F`, conclusion `FlatTopF F'`), refined lax reading
+  * `optSoundP_weak`      — `OptSoundPWeak`: `OptSoundPS` minus the clause "optional-like result fields are
+                            `DOptional`s"
   * `optimize_optShape` / `optimizeUnion_optShape` — the shape fact alone, for arbitrary types
   (`Proofs/RegistryGenOptFlat.lean`: every result of `optimize_type` is hereditarily flat.)
 -/
 import J2M.Proofs.RegistryDefs
 import J2M.Proofs.RegistryGenHash
 import J2M.Proofs.InhOptimize
+import J2M.Proofs.MergeRho
 namespace J2M.Reg
 open J2M
 
@@ -239,7 +247,7 @@ variable (cfg : GenCfg) (e : EqEnv) (ov : Bool) (acc : Accepts) (g : ModelLookup
     an optional-like type becomes a `DOptional`; every inhabitant is kept -/
 def OptSpecP (fuel : Nat) : Prop :=
   ∀ t t', GoodP K I t → optimize cfg e fuel t = .ok t' →
-    OptOutP K I t' ∧ (t.optLike = true → t'.isOpt = true) ∧ Covers ov acc g t t'
+    OptOutP K I t' ∧ (t.optLikeS = true → t'.isOpt = true) ∧ Covers ov acc g t t'
 
 def OptUSpecP (fuel : Nat) : Prop :=
   ∀ ms t', (∀ m ∈ ms, GoodP K I m) → optimizeUnion cfg e fuel ms = .ok t' →
@@ -251,7 +259,7 @@ variable {cfg e ov acc g K I}
 theorem splitMembers_toMerge_nil (reg : StrRegistry) {ms : List Ty} (hms : ∀ m ∈ ms, GoodP K I m) :
     (splitMembers reg ms).toMerge = [] := by
   obtain ⟨hprov, _⟩ := splitMembers_spec (ov := true) (acc := fun _ _ => none) (g := fun _ => none)
-    (Q := GoodP K I) (by simp) (fun x h => by simpa using h) reg ms hms
+    (Q := GoodP K I) (by simp) (fun x h => by simpa using h) (fun us h => goodP_union.1 h) reg ms hms
   obtain ⟨_, p2, _⟩ := hprov
   cases hm : (splitMembers reg ms).toMerge with
   | nil => rfl
@@ -264,7 +272,7 @@ theorem optimizeUnion_stepP (hs : HashSoundOn ov acc g (GoodP K I))
   intro ms t' hms h
   rw [optimizeUnion.eq_2] at h
   obtain ⟨hprov, hcov⟩ := splitMembers_spec (ov := ov) (acc := acc) (g := g) (Q := GoodP K I)
-    (by simp) (fun x h => by simpa using h) cfg.reg ms hms
+    (by simp) (fun x h => by simpa using h) (fun us h => goodP_union.1 h) cfg.reg ms hms
   have hnil := splitMembers_toMerge_nil (K := K) (I := I) cfg.reg hms
   generalize splitMembers cfg.reg ms = s at h hprov hcov hnil
   obtain ⟨p1, p2, p3, p4, p5⟩ := hprov
@@ -381,16 +389,17 @@ theorem optimizeUnion_stepP (hs : HashSoundOn ov acc g (GoodP K I))
 theorem optimize_stepP (fuel : Nat) (ih : OptSpecP cfg e ov acc g K I fuel)
     (ihU : OptUSpecP cfg e ov acc g K I fuel) : OptSpecP cfg e ov acc g K I (fuel + 1) := by
   intro t t' hg h
-  have hnl : ∀ {x : Ty}, x.isUnion = false → x.isOpt = false → x.optLike = true → t'.isOpt = true := by
+  have hnl : ∀ {x : Ty}, x.isUnion = false → x.isOpt = false → x.optLikeS = true → t'.isOpt = true := by
     intro x hu ho hl
-    rw [Ty.optLike_eq_isOpt hu, ho] at hl; cases hl
+    rw [Ty.optLikeS_eq_isOpt hu, ho] at hl; cases hl
   cases t
   case obj fs => simp at hg
   case tuple ts => simp at hg
   case union ts =>
     rw [optimize.eq_3] at h
     obtain ⟨hout, hcov⟩ := ihU ts t' (fun m hm' => goodP_union.1 hg m hm') h
-    exact ⟨hout, fun hl => optimizeUnion_isOpt (Ty.optLike_union.1 hl) h, hcov⟩
+    exact ⟨hout, fun hl => optimizeUnion_isOpt (Ty.optLikeS_union.1 hl).1 (Ty.optLikeS_union.1 hl).2.1
+      (Ty.optLikeS_union.1 hl).2.2 h, hcov⟩
   case opt x =>
     rw [optimize.eq_4, Except.bind_eq_ok] at h
     obtain ⟨y, hy, h⟩ := h
@@ -561,27 +570,16 @@ theorem optShape_collapse0 {us : List Ty} (h : ∀ u ∈ us, Simple u) : OptShap
       rw [(h m hm).1] at ho; cases ho
     · cases e; exact fun u hu => (h u hu).2
 
-/-- `_optimize_union` on a member list without `DUnion` members returns either a `DOptional`, or a type that is
-    not optional-like; a returned `DUnion` has no `DUnion` member. (No assumption on the members otherwise.) -/
-theorem optimizeUnion_optShape {cfg : GenCfg} {e : EqEnv} {fuel : Nat} {ms : List Ty} {t' : Ty}
-    (hflat : ∀ m ∈ ms, m.isUnion = false)
+/-- `_optimize_union` whose split leaves only simple entries in `other` returns a type that is a `DOptional` or
+    not optional-like; a returned `DUnion` has no `DUnion` member -/
+theorem optimizeUnion_optShape_of_simple {cfg : GenCfg} {e : EqEnv} {fuel : Nat} {ms : List Ty} {t' : Ty}
+    (p1 : ∀ o ∈ (splitMembers cfg.reg ms).other, Simple o)
     (h : optimizeUnion cfg e fuel ms = .ok t') : OptShape t' := by
-  by_cases hopt : ∃ m ∈ ms, m.isOpt = true
-  · exact optShape_of_isOpt (optimizeUnion_isOpt hopt h)
-  have hms : ∀ m ∈ ms, Simple m := by
-    intro m hm
-    refine ⟨?_, hflat m hm⟩
-    cases ho : m.isOpt with
-    | false => rfl
-    | true => exact absurd ⟨m, hm, ho⟩ hopt
   cases fuel with
   | zero => simp [optimizeUnion] at h
   | succ fuel =>
   rw [optimizeUnion.eq_2] at h
-  obtain ⟨hprov, _⟩ := splitMembers_spec (ov := true) (acc := fun _ _ => none) (g := fun _ => none)
-    (Q := Simple) ⟨rfl, rfl⟩ (fun x hx => by simp [Simple, Ty.isOpt] at hx) cfg.reg ms hms
-  generalize splitMembers cfg.reg ms = s at h hprov
-  obtain ⟨p1, _, _, _, _⟩ := hprov
+  generalize splitMembers cfg.reg ms = s at h p1
   rw [Except.bind_eq_ok] at h
   obtain ⟨other2, ho2, h⟩ := h
   simp only at h
@@ -666,9 +664,33 @@ theorem optimizeUnion_optShape {cfg : GenCfg} {e : EqEnv} {fuel : Nat} {ms : Lis
     · exact optShape_of_isOpt rfl
     · exact optShape_collapse0 hus
 
-/-- `optimize_type` of a type whose top-level `DUnion` (if any) has no `DUnion` member: the result is a
-    `DOptional` or not optional-like, and again flat at the top. (No other assumption on the type.) -/
-theorem optimize_optShape {cfg : GenCfg} {e : EqEnv} {fuel : Nat} {t t' : Ty} (hflat : FlatTop t)
+/-- `_optimize_union` returns either a `DOptional`, or a type that is not optional-like; a returned `DUnion` has
+    no `DUnion` member. (No assumption on the members: nested unions are spliced by the split, so that no
+    `DUnion` — and a `DOptional` only next to a `Null` — ever reaches `other`.) -/
+theorem optimizeUnion_optShape {cfg : GenCfg} {e : EqEnv} {fuel : Nat} {ms : List Ty} {t' : Ty}
+    (h : optimizeUnion cfg e fuel ms = .ok t') : OptShape t' := by
+  by_cases hs : ∀ o ∈ (splitMembers cfg.reg ms).other, Simple o
+  · exact optimizeUnion_optShape_of_simple hs h
+  · -- an entry of `other` that is not simple is a `DOptional` taken off a `DOptional`: `Null` is there too
+    obtain ⟨o, ho⟩ := Classical.not_forall.1 hs
+    obtain ⟨hmem, hns⟩ := Classical.not_imp.1 ho
+    have hnu : o.isUnion = false := by
+      cases o <;> first | rfl | exact absurd rfl (SplitW.other_ne_union hmem _)
+    have hop : o.isOpt = true := by
+      cases hoo : o.isOpt with
+      | true => rfl
+      | false => exact absurd ⟨hoo, hnu⟩ hns
+    rcases SplitW.mem_other.1 hmem with ⟨rfl, _⟩ | ⟨_, ⟨_, hno⟩ | hopt⟩
+    · simp [Ty.isOpt] at hop
+    · rw [hno] at hop; cases hop
+    · have hnull : Ty.null ∈ (splitMembers cfg.reg ms).other :=
+        SplitW.split_other_null_iff.2 ⟨.opt o, hopt, Or.inl rfl⟩
+      have hne : Ty.null ≠ o := by intro e; rw [← e] at hop; simp [Ty.isOpt] at hop
+      exact optShape_of_isOpt (optimizeUnion_isOpt_of_big ⟨hnull, Or.inl (two_le_length_of_ne hnull hmem hne)⟩ h)
+
+/-- `optimize_type`: the result is a `DOptional` or not optional-like, and flat at the top.
+    (No assumption on the type.) -/
+theorem optimize_optShape {cfg : GenCfg} {e : EqEnv} {fuel : Nat} {t t' : Ty}
     (h : optimize cfg e fuel t = .ok t') : OptShape t' := by
   by_cases hs : Simple t
   · exact (optimize_simple hs h).optShape
@@ -678,7 +700,7 @@ theorem optimize_optShape {cfg : GenCfg} {e : EqEnv} {fuel : Nat} {t t' : Ty} (h
     cases t
     case union ts =>
       rw [optimize.eq_3] at h
-      exact optimizeUnion_optShape (hflat ts rfl) h
+      exact optimizeUnion_optShape h
     case opt x =>
       rw [optimize.eq_4, Except.bind_eq_ok] at h
       obtain ⟨y, _, h⟩ := h
@@ -690,17 +712,17 @@ theorem optimize_optShape {cfg : GenCfg} {e : EqEnv} {fuel : Nat} {t t' : Ty} (h
 
 /-- `optimize_type` on the field dict of a registered model (field types are registry-stage: model pointers,
     no inline dict), for every comparison environment `e` and every lookup `L`: the result is again such a
-    field dict with the same keys, free of overflowed literals, and every object lying *laxly* in the input
-    lies *strictly* in it. When the input's top-level `DUnion`s are flat, every result field is a `DOptional`
-    or not optional-like, and flat again. -/
+    field dict with the same keys, free of overflowed literals, every result field is a `DOptional` or not
+    optional-like and flat at the top, and every object lying *laxly* (refined lax reading) in the input lies
+    *strictly* in it. -/
 theorem optSoundP_core {ov : Bool} {acc : Accepts} {K I : String → Prop} {cfg : GenCfg}
     (hK : ∀ k, K k → wfSerName k = true) (hI : IdxAlnum I)
     (hrep : ReplacesSound acc cfg.reg) (hrank : ReplacesRanked cfg.reg)
     (L : ModelLookup) (e : EqEnv) (fuel : Nat) (F : Fields) (t' : Ty)
     (hF : GoodPF K I F) (h : optimize cfg e fuel (.obj F) = .ok t') :
     ∃ F', t' = .obj F' ∧ GoodPF K I F' ∧ F'.map (·.1) = F.map (·.1) ∧
-      (∀ f ∈ F', Ty.NoOv f.2) ∧ (FlatTopF F → ∀ f ∈ F', OptShape f.2) ∧
-      ∀ kvs, InhFieldsLX ov acc L F kvs → InhFieldsX ov acc L F' kvs := by
+      (∀ f ∈ F', Ty.NoOv f.2) ∧ (∀ f ∈ F', OptShape f.2) ∧
+      ∀ kvs, InhFieldsLXS ov acc L F kvs → InhFieldsX ov acc L F' kvs := by
   cases fuel with
   | zero => simp [optimize] at h
   | succ fuel =>
@@ -719,53 +741,67 @@ theorem optSoundP_core {ov : Bool} {acc : Accepts} {K I : String → Prop} {cfg 
     obtain ⟨t, ht, hopt⟩ := hbw f.1 f.2 (Fields.get?_of_mem nd' hf)
     exact (ih t f.2 (hfield _ _ ht) hopt).1
   refine ⟨fs', rfl, ⟨nd', fun f hf => (hout f hf).1⟩, hkeys, fun f hf => (hout f hf).2, ?_, ?_⟩
-  · intro hflat f hf
+  · intro f hf
     obtain ⟨t, ht, hopt⟩ := hbw f.1 f.2 (Fields.get?_of_mem nd' hf)
-    exact optimize_optShape (hflat _ (Fields.mem_of_get? ht)) hopt
+    exact optimize_optShape hopt
   · intro kvs hi
     refine InhF.toInhFields nd' ⟨?_, ?_⟩
     · intro kv hkv
-      obtain ⟨t, ht, hti⟩ := hi.toInhFL.1 kv hkv
+      obtain ⟨t, ht, hti⟩ := hi.toInhFLS.1 kv hkv
       obtain ⟨t2, ht2, hopt⟩ := hfw _ _ ht
       exact ⟨t2, ht2, (ih t t2 (hfield _ _ ht) hopt).2.2 _ hti⟩
     · intro k t2 hk hno
       obtain ⟨t, ht, hopt⟩ := hbw k t2 hk
       have := (ih t t2 (hfield _ _ ht) hopt).2.1
-      have hno' : t.optLike = false := by
-        cases ho : t.optLike with
+      have hno' : t.optLikeS = false := by
+        cases ho : t.optLikeS with
         | false => rfl
         | true => rw [this ho] at hno; simp at hno
-      exact hi.toInhFL.2 k t ht hno'
+      exact hi.toInhFLS.2 k t ht hno'
 
-/-- `OptSoundP` restricted to field dicts whose top-level `DUnion`s have no `DUnion` member
+/-- **the true form of `OptSoundP`** (Proofs/RegistryDefs.lean): the same with the refined lax reading
+    (`InhFieldsLXS`: a field may be absent when its type is `Ty.optLikeS`) in place of `InhFieldsLX` -/
+def OptSoundPS (ov : Bool) (acc : Accepts) (K I : String → Prop) (cfg : GenCfg) : Prop :=
+  ∀ (L : ModelLookup) (e : EqEnv) (fuel : Nat) (F : Fields) (t' : Ty),
+    GoodPF K I F → optimize cfg e fuel (.obj F) = .ok t' →
+    ∃ F', t' = .obj F' ∧ GoodPF K I F' ∧ F'.map (·.1) = F.map (·.1) ∧
+      (∀ f ∈ F', Ty.NoOv f.2 ∧ (f.2.optLike = true → f.2.isOpt = true)) ∧
+      ∀ kvs, InhFieldsLXS ov acc L F kvs → InhFieldsX ov acc L F' kvs
+
+theorem optSoundPS {ov : Bool} {acc : Accepts} {K I : String → Prop} {cfg : GenCfg}
+    (hK : ∀ k, K k → wfSerName k = true) (hI : IdxAlnum I)
+    (hrep : ReplacesSound acc cfg.reg) (hrank : ReplacesRanked cfg.reg) : OptSoundPS ov acc K I cfg := by
+  intro L e fuel F t' hF h
+  obtain ⟨F', e', hg, hkeys, hnoov, hshape, hinh⟩ := optSoundP_core hK hI hrep hrank L e fuel F t' hF h
+  exact ⟨F', e', hg, hkeys, fun f hf => ⟨hnoov f hf, (hshape f hf).1⟩, hinh⟩
+
+/-- `OptSoundPS` restricted to field dicts whose top-level `DUnion`s have no `DUnion` member
     (added hypothesis `FlatTopF F`); the result is again of this kind (added conclusion `FlatTopF F'`) -/
 def OptSoundPFlat (ov : Bool) (acc : Accepts) (K I : String → Prop) (cfg : GenCfg) : Prop :=
   ∀ (L : ModelLookup) (e : EqEnv) (fuel : Nat) (F : Fields) (t' : Ty),
     GoodPF K I F → FlatTopF F → optimize cfg e fuel (.obj F) = .ok t' →
     ∃ F', t' = .obj F' ∧ GoodPF K I F' ∧ FlatTopF F' ∧ F'.map (·.1) = F.map (·.1) ∧
       (∀ f ∈ F', Ty.NoOv f.2 ∧ (f.2.optLike = true → f.2.isOpt = true)) ∧
-      ∀ kvs, InhFieldsLX ov acc L F kvs → InhFieldsX ov acc L F' kvs
+      ∀ kvs, InhFieldsLXS ov acc L F kvs → InhFieldsX ov acc L F' kvs
 
-/-- **the true form of `OptSoundP`**: with the extra hypothesis `FlatTopF F` (no field type is a `DUnion` with a
-    `DUnion` member — guaranteed by `DUnion.__init__`, which flattens), preserved by `optimize_type`. -/
+/-- the flat form (`DUnion.__init__` flattens, so the registry only meets such field dicts); the hypothesis
+    `FlatTopF F` is not needed any more (`optSoundPS`), the conclusion `FlatTopF F'` holds for every input -/
 theorem optSoundP_partial {ov : Bool} {acc : Accepts} {K I : String → Prop} {cfg : GenCfg}
     (hK : ∀ k, K k → wfSerName k = true) (hI : IdxAlnum I)
     (hrep : ReplacesSound acc cfg.reg) (hrank : ReplacesRanked cfg.reg) : OptSoundPFlat ov acc K I cfg := by
-  intro L e fuel F t' hF hflat h
+  intro L e fuel F t' hF _ h
   obtain ⟨F', e', hg, hkeys, hnoov, hshape, hinh⟩ := optSoundP_core hK hI hrep hrank L e fuel F t' hF h
-  exact ⟨F', e', hg, fun f hf => (hshape hflat f hf).2, hkeys,
-    fun f hf => ⟨hnoov f hf, (hshape hflat f hf).1⟩, hinh⟩
+  exact ⟨F', e', hg, fun f hf => (hshape f hf).2, hkeys,
+    fun f hf => ⟨hnoov f hf, (hshape f hf).1⟩, hinh⟩
 
-/-- `OptSoundP` without the "optional-like fields are `DOptional`s" clause -/
+/-- `OptSoundPS` without the "optional-like fields are `DOptional`s" clause -/
 def OptSoundPWeak (ov : Bool) (acc : Accepts) (K I : String → Prop) (cfg : GenCfg) : Prop :=
   ∀ (L : ModelLookup) (e : EqEnv) (fuel : Nat) (F : Fields) (t' : Ty),
     GoodPF K I F → optimize cfg e fuel (.obj F) = .ok t' →
     ∃ F', t' = .obj F' ∧ GoodPF K I F' ∧ F'.map (·.1) = F.map (·.1) ∧
       (∀ f ∈ F', Ty.NoOv f.2) ∧
-      ∀ kvs, InhFieldsLX ov acc L F kvs → InhFieldsX ov acc L F' kvs
+      ∀ kvs, InhFieldsLXS ov acc L F kvs → InhFieldsX ov acc L F' kvs
 
-/-- everything in `OptSoundP` except the clause "optional-like result fields are `DOptional`s" holds with no
-    extra hypothesis -/
 theorem optSoundP_weak {ov : Bool} {acc : Accepts} {K I : String → Prop} {cfg : GenCfg}
     (hK : ∀ k, K k → wfSerName k = true) (hI : IdxAlnum I)
     (hrep : ReplacesSound acc cfg.reg) (hrank : ReplacesRanked cfg.reg) : OptSoundPWeak ov acc K I cfg := by
@@ -773,30 +809,42 @@ theorem optSoundP_weak {ov : Bool} {acc : Accepts} {K I : String → Prop} {cfg 
   obtain ⟨F', e', hg, hkeys, hnoov, _, hinh⟩ := optSoundP_core hK hI hrep hrank L e fuel F t' hF h
   exact ⟨F', e', hg, hkeys, hnoov, hinh⟩
 
-/-! ## `OptSoundP` itself is false: a `DUnion` directly inside a `DUnion` -/
+/-! ## `OptSoundP` itself (lax reading with `Ty.optLike`) is false: a degenerate `DUnion` -/
 
-/-- the witness: `{a: Union[Union[Optional[int], str], float]}` is optimised to
-    `{a: Union[Optional[Union[int, str]], float]}` (for every configuration and comparison environment) -/
+/-- the former witness against `OptSoundP` is none any more: `{a: Union[Union[Optional[int], str], float]}` is now
+    optimised to `{a: Optional[Union[float, str]]}` (the directly nested `DUnion` is spliced; it used to give
+    `{a: Union[Optional[Union[int, str]], float]}`) -/
 theorem optimize_nested_union_witness (cfg : GenCfg) (e : EqEnv) :
     optimize cfg e 6 (.obj [("a", .union [.union [.opt .int, .str], .float])]) =
-      .ok (.obj [("a", .union [.opt (.union [.int, .str]), .float])]) := by
-  simp [optimize, optimizeUnion, splitMembers, Ty.isInt, Ty.isFloat, Ty.isStr, Ty.isUnknown,
-    Ty.isNull, bind, Except.bind, pure, Except.pure, mkUnionMembers, flattenUnion, handleType, hashStr, hashStrs]
+      .ok (.obj [("a", .opt (.union [.float, .str]))]) := by
+  simp [optimize, optimizeUnion, splitMembers, splitMembersAux, Ty.size, Ty.sizeList, removeFirst,
+    Ty.isInt, Ty.isFloat, Ty.isStr, Ty.isUnknown,
+    Ty.isNull, bind, Except.bind, pure, Except.pure, mkUnionMembers, flattenUnion, handleType, hashStr]
+
+/-- the witness: `{a: Union[Optional[Union[]]]}` is optimised to `{a: Null}` (for every configuration and
+    comparison environment): the empty `DUnion` under the `Optional` is spliced away, `Null` is the only entry -/
+theorem optimize_degenerate_witness (cfg : GenCfg) (e : EqEnv) :
+    optimize cfg e 4 (.obj [("a", .union [.opt (.union [])])]) = .ok (.obj [("a", .null)]) := by
+  simp [optimize, optimizeUnion, splitMembers, splitMembersAux, Ty.size, Ty.sizeList, Ty.isInt, Ty.isFloat,
+    bind, Except.bind, pure, Except.pure]
 
 /-- **`OptSoundP` is false for every choice of its parameters**: the field dict of the witness is registry-stage
-    (`GoodP` allows a `DUnion` member of a `DUnion`), its optimised field is optional-like but not a `DOptional`.
-    (The nested `DUnion` lands in `other`, is optimised to a `DOptional`, and `_optimize_union` only looks for a
-    literal `Null` among the optimised members.) -/
+    (`GoodP` allows the empty `DUnion`), `{}` lies laxly in it (the field is `Ty.optLike`) and not in its
+    optimisation `{a: Null}`. -/
 theorem optSoundP_false (ov : Bool) (acc : Accepts) (K I : String → Prop) (cfg : GenCfg) :
     ¬ OptSoundP ov acc K I cfg := by
   intro h
-  obtain ⟨F', e', _, _, hshape, _⟩ :=
-    h (fun _ => none) ⟨StrOracle.default, fun i => i, fun _ => none, 1⟩ 6
-      [("a", .union [.union [.opt .int, .str], .float])] _
-      ⟨by simp, by simp⟩ (optimize_nested_union_witness cfg _)
+  obtain ⟨F', e', _, _, _, hinh⟩ :=
+    h (fun _ => none) ⟨StrOracle.default, fun i => i, fun _ => none, 1⟩ 4
+      [("a", .union [.opt (.union [])])] _
+      ⟨by simp, by simp⟩ (optimize_degenerate_witness cfg _)
   cases e'
-  have := (hshape _ (List.mem_singleton.2 rfl)).2
-  simp [Ty.optLike, Ty.unionMembers, Ty.isOpt] at this
+  have hlax : InhFieldsLX ov acc (fun _ => none) [("a", .union [.opt (.union [])])] [] := by
+    refine ⟨by simp, by simp, ?_⟩
+    intro ft hft hno; simp at hft; subst hft
+    revert hno; decide
+  obtain ⟨kv, hkv, _⟩ := (hinh [] hlax).2.2 ("a", .null) (by simp) rfl
+  simp at hkv
 
 /-- the statement asked for -/
 def optSoundP_Statement : Prop :=
@@ -840,7 +888,8 @@ example :
     rcases hf with rfl | rfl
     · simp at e; subst e; simp at hu; rcases hu with rfl | rfl <;> rfl
     · simp at e
-  · simp [optimize, optimizeUnion, splitMembers, Ty.isInt, Ty.isFloat, Ty.isStr, Ty.isUnknown,
+  · simp [optimize, optimizeUnion, splitMembers, splitMembersAux, Ty.size,
+      Ty.isInt, Ty.isFloat, Ty.isStr, Ty.isUnknown,
       Ty.isNull, bind, Except.bind, pure, Except.pure, mkUnionMembers, flattenUnion, handleType, hashStr,
       fieldsEx, cfgEx]
 
@@ -848,9 +897,11 @@ example :
 #print axioms J2M.Reg.optimizeUnion_optShape
 #print axioms J2M.Reg.optimize_optShape
 #print axioms J2M.Reg.optSoundP_core
+#print axioms J2M.Reg.optSoundPS
 #print axioms J2M.Reg.optSoundP_partial
 #print axioms J2M.Reg.optSoundP_weak
 #print axioms J2M.Reg.optimize_nested_union_witness
+#print axioms J2M.Reg.optimize_degenerate_witness
 #print axioms J2M.Reg.optSoundP_false
 #print axioms J2M.Reg.optSoundP_Statement_false
 
